@@ -366,6 +366,16 @@ pub fn gen_c10(seed: u64, tier: &str) -> Value {
         if own_calls {
             // the agent's own clients call the host all along this round
             steps.push(json!({"t": "own_calls", "n": 5 + r.below(40), "gap_ms": *r.pick(&[1u64, 10, 60, 250]), "which": r.below(3)}));
+            // some of those calls fail at the host, so that whatever the clients do after a failure (retry, fall back)
+            // happens while keys rotate
+            for _ in 0..r.below(4) {
+                let f = match r.below(3) {
+                    0 => json!({"f": "status", "status": *r.pick(&[500u64, 503])}),
+                    1 => json!({"f": "reset_before"}),
+                    _ => json!({"f": "reset_after"}),
+                };
+                steps.push(json!({"t": "host_fault", "kind": *r.pick(&["goalstate", "goalstate", "sharedconfig", "imds_instance"]), "fault": f}));
+            }
         }
         if faults {
             // the rotation meets a host that fails or stalls key negotiation steps, and an upstream that misbehaves
